@@ -642,6 +642,69 @@ func (x *pmmx) ruleAllocMarks() {
 	if nret == 0 {
 		c.fail("C01.R4", "alloc-return "+m.fnName(x.bAlloc), "AllocFrame never returns a frame", m.pos(x.bAlloc.Pos()))
 	}
+	// the scan looks at every word of every pool: the loops that advance the word
+	// index and the pool index start at 0 (a scan that starts later, e.g. at a
+	// remembered position, misses frames that were freed behind it)
+	{
+		bad := ""
+		where := m.pos(x.bAlloc.Pos())
+		nloops := 0
+		// the reads of bitmap words (the scan looks at a word before it tests bits)
+		for n, in := range g.Ins {
+			ia, ok := in.(*ssa.IndexAddr)
+			if !ok {
+				continue
+			}
+			if f, rest := lastField(accessPath(ia.X)); f != x.freeBitmap || rest != "" {
+				continue
+			}
+			isRead := false
+			for _, u := range usersOf(ia) {
+				if ld, ok := u.(*ssa.UnOp); ok && ld.Op == token.MUL {
+					isRead = true
+				}
+			}
+			if !isRead {
+				continue
+			}
+			idxs := []ssa.Value{ia.Index}
+			// the pool index: alloc.pools[i] on the way to the bitmap
+			for _, e := range accessPath(ia.X) {
+				if e.Kind != "index" {
+					continue
+				}
+				switch t := e.V.(type) {
+				case *ssa.IndexAddr:
+					idxs = append(idxs, t.Index)
+				case *ssa.Index:
+					idxs = append(idxs, t.Index)
+				}
+			}
+			for _, h := range g.loopsAround(n) {
+				zs := &Polyizer{}
+				lf, ok := g.loopFormAt(zs, h)
+				if !ok {
+					continue
+				}
+				for _, iv := range idxs {
+					first, step, okA := lf.affineInT(iv)
+					if k, isK := step.isConst(); !okA || !isK || k == 0 {
+						continue
+					}
+					nloops++
+					if f0, isC := first.isConst(); !isC || f0 != 0 {
+						bad = "the scan does not start at index 0: it starts at " + first.String()
+						where = g.posOf(g.First[h])
+					}
+				}
+				lf.Done()
+			}
+		}
+		if nloops == 0 {
+			bad = "no scan loop over the bitmap words found (rule shape lost)"
+		}
+		c.check(bad == "", "C01.R4", "alloc-scan-complete "+m.fnName(x.bAlloc), fmt.Sprintf("%d scan loop(s), each from index 0", nloops), bad, where)
+	}
 	// mark / free encodings: word = fdiv6(frame - start), mask = 1 << (63 - ((frame-start) - 64*word))
 	for _, fn := range []*ssa.Function{x.markRole, x.bFree} {
 		gf := newIG(m, fn, nil)
